@@ -12,7 +12,7 @@
     [inc_end m g n] / [hh_end g n] = n lies on an included / on an H-H bond, [charge_changed a] = the two charges in typesGH differ.
     Theorems 13-17: the RadiusExpand helpers. *)
 From Coq Require Import List NArith ZArith Bool.
-From SK Require Import lib.LGraph lib.C01_GraphLemmas model.C01_Model model.C01_Opts model.C02_Model model.C02_Store model.C02_Api proof.C02_Store proof.C02_StoreCtx proof.C02_StoreEquiv proof.C02_Api proof.C02_Proof proof.C02_Opts proof.C02_OptsEquiv proof.C02_Ctx proof.C02_Lre proof.C02_LreTrace proof.C02_Sides proof.C02_Sides2 proof.C02_CtxEquiv proof.C02_CtxCentre proof.C02_CtxNest model.C01_String proof.C01_StringEH proof.C02_ExplicitH.
+From SK Require Import lib.LGraph lib.C01_GraphLemmas model.C01_Model model.C01_Opts model.C02_Model model.C02_Store model.C02_Api proof.C02_Store proof.C02_StoreCtx proof.C02_StoreEquiv proof.C02_StoreNest proof.C02_Api proof.C02_Proof proof.C02_Opts proof.C02_OptsEquiv proof.C02_Ctx proof.C02_Lre proof.C02_LreTrace proof.C02_Sides proof.C02_Sides2 proof.C02_CtxEquiv proof.C02_CtxCentre proof.C02_CtxNest model.C01_String proof.C01_StringEH proof.C02_ExplicitH.
 (* [extract_k_S] in section 28 is the definition of model/C02_Store.v (proof/C02_Proof.v has a lemma of that name) *)
 From SK Require Import model.C02_Store.
 Import ListNotations.
@@ -615,3 +615,28 @@ Theorem C02_skel : forall (A : Type) (g : lgraph A xedge) u v,
   std0 (skel g) u v = match adj g u v with Some x => e_std (fst x) =? 0 | None => false end.
 Proof. exact (fun A g u v => conj (node_ids_skel g) (conj (adj_skel g u v) (std0_skel g u v))). Qed.
 Print Assumptions C02_skel.
+
+(** 35. Theorems 25 and 26 for every label shape.  (a) for get_rc with any element_key / keep_mtg (disconnected = False): the induced
+        subgraph on the radius-k ball around ANY start list that contains the centre atoms has the same centre (k = 0 included);
+        (b) the same on pair-/absent-label graphs; (c) a context carries its centre; (d) contexts nest. *)
+Theorem C02_rcx_of_ball : forall K m (G : xits), wf G -> forall (S : list N) (k : nat),
+  (forall n, In n (node_ids (get_rc_x K false m G)) -> In n S) ->
+  geq (get_rc_x K false m (ball_sub G S k)) (get_rc_x K false m G).
+Proof. exact rcx_of_ball. Qed.
+Print Assumptions C02_rcx_of_ball.
+
+Theorem C02_rcS_of_ball : forall K m (g : sits) (S : list N) (k : nat), wf g ->
+  (forall n, In n (node_ids (get_rc_S K false m g)) -> In n S) ->
+  geq (get_rc_S K false m (ball_sub g S k)) (get_rc_S K false m g).
+Proof. exact rcS_of_ball. Qed.
+Print Assumptions C02_rcS_of_ball.
+
+Theorem C02_rcS_of_context : forall (g : sits) k, wf g -> (1 <= k)%nat ->
+  geq (get_rc_S K_default false false (extract_k_S g k)) (get_rc_S K_default false false g).
+Proof. exact rcS_of_context. Qed.
+Print Assumptions C02_rcS_of_context.
+
+Theorem C02_ctxS_of_ctx : forall g : sits, wf g -> forall k k', (1 <= k)%nat -> (k <= k')%nat ->
+  geq (extract_k_S (extract_k_S g k') k) (extract_k_S g k).
+Proof. exact ctxS_of_ctx. Qed.
+Print Assumptions C02_ctxS_of_ctx.
